@@ -370,6 +370,48 @@ class NpShim(object):
         return NpShim._functional("quantile", a, (float(q), method), axis)
 
     @staticmethod
+    def nan_to_num(a, **k):
+        if not is_sym(a):
+            return _np.nan_to_num(a, **k)
+        use("np.nan_to_num")
+        big = z3.RealVal("179769313486231570000000000000000000000000000000000000000000000000000000000000000000000000000000000000000000000000000000000000000000000000000000000000000000000000000000000000000000000000000000000000000000000000000000000000000000000000000000000000000000000000000000000000000000000000000000000000000")
+
+        def f(e):
+            e = _num(e)
+            v = sym.Ite(bz(e.isfin()), e.rv(), sym.Ite(bz(e.ispinf()), big, sym.Ite(bz(e.isninf()), -big, z3.RealVal(0))))
+            return SNum(FIN, v)
+        if isinstance(a, SArr):
+            g = a._snapshot()
+            return a._like(lambda idx: f(g(idx)), "float")
+        return f(a)
+
+    @staticmethod
+    def cumsum(a, axis=None, **k):
+        if not is_sym(a):
+            return _np.cumsum(a, axis=axis, **k)
+        use("np.cumsum")
+        if axis is None:
+            if len(a.axes) != 1:
+                raise Unsupported("cumsum of a flattened multi-dimensional proxy")
+            axis = 0
+        if axis < 0:
+            axis += len(a.axes)
+        g, sel, msk = a._snapshot(), a.sel, a.mask
+        if sel is not None or msk is not None:
+            raise Unsupported("cumsum of a filtered / masked proxy")
+        inner = a.axes[axis]
+        memo = {}
+
+        def get(idx):
+            key = tuple(i.get_id() for i in idx)
+            if key not in memo:
+                i0 = idx[axis]
+                sub = SArr((inner,), lambda j: g(tuple(idx[:axis]) + (j[0],) + tuple(idx[axis + 1:])), a.dtype, lambda j: j[0] <= i0, None)
+                memo[key] = sym.arr_sum(sub)
+            return memo[key]
+        return SArr(a.axes, get, "float")
+
+    @staticmethod
     def sort(a, axis=-1, **k):
         if not is_sym(a):
             return _np.sort(a, axis=axis, **k)
@@ -390,6 +432,18 @@ class NpShim(object):
 def _like_shape(shape, value, dtype):
     """np.zeros/ones(shape): shape must be x.shape or len(x) of a symbolic array x -> same index domain"""
     src = None
+    if isinstance(shape, (list, tuple)) and not isinstance(shape, sym.Shape) and len(shape) > 1:
+        # [len(x), F, ...]: symbolic extents are lengths of known one-dimensional arrays, concrete ones get new axes
+        axes = []
+        for e in shape:
+            if isinstance(e, SNum) and e.src is not None and len(e.src.axes) == 1 and e.src.sel is None:
+                axes.append(e.src.axes[0])
+            elif isinstance(e, int):
+                axes.append(sym.Axis("c%d!%d" % (e, next(CTX.counter)), e))
+            else:
+                raise Unsupported("np.zeros with a symbolic extent that is not the length of a known array")
+        v = SBool(bool(value)) if dtype == "bool" else SNum.lift(value)
+        return SArr(tuple(axes), lambda idx: v, dtype)
     if isinstance(shape, sym.Shape):
         src = shape.src
     elif isinstance(shape, SNum) and shape.src is not None:
